@@ -295,3 +295,6 @@ def run(ctx, rep):
     rule_reply(ctx, rep)
     rule_quiet(ctx, rep)
     rule_exit(ctx, rep)
+    # the invariant the map_label slice triage relies on (offsets belong to the current text), re-verified here
+    from rules.c11 import rule_cache
+    rule_cache(ctx, rep, rid="R-C12-cache")
